@@ -39,7 +39,7 @@ def rule_update_table(ctx):
     ins = [c["bb"] for c in T.calls() if c["q"].endswith("HashMap::insert") and chain(T.args_of(c)[0])[1][-1:] == ["0"]]
     ver = [c["bb"] for c in T.calls() if c["q"].endswith("Signed::verify")]
     errs = [bi for bi, b in enumerate(f.blocks) for s in b["s"] if s["k"] == "assign" and s["p"]["l"] == 0 and s["r"]["k"] == "agg" and s["r"].get("variant") == "Err"]
-    head = loop_head(ctx, f)
+    head = loop_head(ctx, f, target=ins) if ins else None
     ctx.floor(R, "address-book insert sites", len(ins), 1)
     ctx.floor(R, "signature verification sites", len(ver), 1)
     ctx.ob(R, "batch loop", head is not None, "loop over the batch found", f.loc())
